@@ -134,7 +134,8 @@ class C10(Prop):
                                                            (k[4] == cip and k[5] == cp and k[2] == sip))]
             accounted.update(mine)
             tag = "%s conn %d client port %d server port %d, options %s" % (c["proto"], c["id"], cp, sp, cli)
-            if sp not in selected:
+            if sp not in selected and c["proto"] == "tls":
+                # the port selection rule is stated for TCP/TLS only; QUIC is recognised on any UDP port
                 if mine:
                     out.violate("unselected-port-not-exported", "exported-although-port-not-selected:" + c["proto"], tag)
                 continue
@@ -142,8 +143,11 @@ class C10(Prop):
             if "m" in cli:
                 out.count("reach:mapped_default_8080" if want == 8080 and not any(
                     x.replace(",", "").startswith("%d:" % sp) for x in (cli["m"] or ["443:8080"])) else "reach:mapped_port_hit")
+            tc = [x for x in ex["truth"]["conns"] if x["id"] == c["id"]][0]
+            has_data = bool(tc["app"]["c"] or tc["app"]["s"]) if c["proto"] == "tls" else bool(tc.get("expected"))
             if not mine:
-                out.violate("selected-port-exported", "no-output-for-selected-port:" + c["proto"], tag)
+                if has_data:
+                    out.violate("selected-port-exported", "no-output-for-selected-port:" + c["proto"], tag)
                 continue
             for k in mine:
                 srv_port = k[5] if k[2] == cip else k[3]
